@@ -428,13 +428,15 @@ TRUSTED = ["hook cesium/export_verif_c04.go (VerifGC = the private garbageCollec
 ASSUMES = ["sequential histories (no writer/iterator open during Delete/GC); files < 4 GiB (uint32 casts do not wrap)",
            "the file a writer acquires is taken from the implementation (Go map order); no file rollover inside a commit",
            "index stamps strictly increasing within a domain; stamps in [0, 2^63-1)",
-           "theorems hold for states satisfying db_ok/wf_db; the decidable check db_okb (proved sound) is evaluated on every "
-           "model state of every generated history, writes included"]
-PARTIAL = ("delete exactness is proved for every history state satisfying the invariant and for calls that return no error: "
-           "(a) success of the index look-ups (Distance/Stamp continuity) is observed by the correspondence, not proved; "
-           "(b) re-establishment of the database invariant after deleting from an INDEX channel is proved at channel level "
-           "(C04_delete_exact_one_channel with the channel as its own index) but not lifted to the dependants at database level; "
-           "(c) preservation of the invariant by writes is validated at run time by the sound check db_okb, not proved")
+           "theorems hold for states satisfying db_ok/db_cov/wf_db; the decidable checks db_okb and db_covb (proved sound) are "
+           "evaluated on every model state of every generated history, writes included"]
+PARTIAL = ("proved for every history state satisfying the invariant (db_ok) and the index coverage (db_cov): delete exactness for "
+           "any channel set and bounds when the call returns no error, read exactness with no success hypothesis, invariant and "
+           "coverage kept by GC/reopen/data-channel deletes, invariant kept by index-channel deletes. Not proved, observed on "
+           "every run instead: (a) that a well-formed DeleteTimeRange returns no error (success of its Stamp look-ups) - the "
+           "monitor flags any failure other than the guard or a malformed request; (b) coverage after an index-channel delete and "
+           "(c) invariant + coverage after writes - both validated by the sound checks db_okb/db_covb on every model state of "
+           "every generated history")
 READY = True
 TECHNIQUE = ("Coq proof (storage invariant + alignment with the index; binary-search, Distance/Stamp specifications; "
              "refinement of pointer surgery to filtered (stamp, sample) lists; GC view preservation) + model/impl "
